@@ -67,6 +67,34 @@ def run(tier, seed):
                                  f"p, q = on.compile({t!r}), off.compile({t!r})\ndocs = {all_docs!r}\nfc = {fc!r}\nbad = 0\nfor rnd in range(2):\n    for d in docs:\n        a, b = p.findall(d, filter_context=fc), q.findall(d, filter_context=fc)\n        if a != b: print('caching on', a, 'off', b, 'on', d); bad = 1\nsys.exit(bad)")
         if str(p_on) != text_before:
             rec.fail(f"mutated:{t}", f"evaluating {t!r} changed the compiled query: {text_before!r} -> {str(p_on)!r}", "sys.exit(2)")
+    # documents given as JSON text: every evaluation sees a freshly decoded value - what a caller does to the
+    # values it got back must not show up in a later evaluation of the same text
+    import json as _json
+
+    for t in ("$..*", "$.users[?@.score > $.limit].name", "$[*]", "$.users[*]"):
+        for d in ({"limit": 1, "users": [{"name": "a", "score": 1, "tags": []}, {"name": "b", "score": 2, "tags": [1]}]}, [[1, 2], {"k": [3]}, "s"]):
+            text = _json.dumps(d)
+            try:
+                p = on.compile(t)
+                first = p.findall(text)
+                shown = repr(first)
+                for v in first:  # the caller scribbles over what it was given
+                    if isinstance(v, list):
+                        v.append("scribble")
+                    elif isinstance(v, dict):
+                        v["scribble"] = True
+                        for k in [k for k in v if k in ("score", "limit")]:
+                            v[k] = 99
+                second = p.findall(text)
+                fresh = off.compile(t).findall(_json.loads(text))
+            except Exception as e:  # noqa: BLE001
+                rec.fail(f"text-reuse:{t}", f"{t!r} on the JSON text {text!r}: {type(e).__name__}: {e}", "sys.exit(2)")
+                continue
+            if repr(second) == shown == repr(fresh):
+                rec.ok(("text-reuse", t, text))
+            else:
+                rec.fail(f"text-reuse:{t}|{text}", f"{t!r} evaluated twice on the same JSON text {text!r}: first {shown}, after the caller modified the returned values {second!r}; a fresh decode gives {fresh!r}",
+                         f"import jsonpath\ntext = {text!r}\na = jsonpath.findall({t!r}, text); r = repr(a)\nfor v in a:\n    if isinstance(v, list): v.append('x')\n    elif isinstance(v, dict): v['x'] = 1\nb = jsonpath.findall({t!r}, text)\nprint(r); print(b); sys.exit(0 if repr(b) == r else 1)")
     # interleaved lazy iterators of one compiled query
     for t in CACHE_QUERIES:
         p = on.compile(t)
